@@ -12,6 +12,11 @@
 (*                on the array stored under `key` in the table at `path`   *)
 (*   aot_push / aot_remove(i)  on the array of tables under `key`          *)
 (*   sort_values  sort the key/value pairs of the table at `path` by key    *)
+(*   fmt          re-format the table at `path` (content unchanged)        *)
+(*   array_fmt    re-format the array under `key` (content unchanged)      *)
+(*   clear        remove every entry of the table at `path`                *)
+(*   to_inline / to_table   convert the table under `key` between the      *)
+(*                standard and the inline form (content unchanged)         *)
 (* ApplyOp gives the content after the operation; Touched gives the paths  *)
 (* whose source text the operation is allowed to change.                   *)
 (***************************************************************************)
@@ -59,7 +64,9 @@ Enabled(t, o) ==
     [] o.op \in {"array_push", "aot_push"} -> tgt.k = "a"
     [] o.op = "array_insert" -> tgt.k = "a" /\ o.i <= Len(tgt.v)
     [] o.op \in {"array_replace", "array_remove", "aot_remove"} -> tgt.k = "a" /\ o.i + 1 <= Len(tgt.v)
-    [] o.op = "sort_values" -> tb.k = "t"
+    [] o.op \in {"sort_values", "fmt", "clear"} -> tb.k = "t"
+    [] o.op = "array_fmt" -> tgt.k = "a"
+    [] o.op \in {"to_inline", "to_table"} -> tgt.k = "t"
     [] OTHER -> FALSE
 
 ApplyOp(t, o) ==
@@ -80,10 +87,13 @@ ApplyOp(t, o) ==
     [] o.op = "aot_remove" -> IF Len(tgt.v) = 1 THEN SetAt(t, o.path, [tb EXCEPT !.v = RemoveIdx(tb.v, KeyPos(tb.v, o.key))])
                               ELSE SetAt(t, tp, [tgt EXCEPT !.v = RemoveIdx(tgt.v, o.i + 1)])
     [] o.op = "sort_values" -> SetAt(t, o.path, [tb EXCEPT !.v = SortEntries(tb.v)])
+    [] o.op \in {"fmt", "array_fmt", "to_inline", "to_table"} -> t
+    [] o.op = "clear" -> SetAt(t, o.path, [tb EXCEPT !.v = <<>>])
 
 \* the path whose source text may change; everything outside it must stay verbatim
 TouchedPath(o) ==
-  CASE o.op \in {"insert", "remove", "array_push", "array_insert", "array_replace", "array_remove"} -> Append(o.path, o.key)
+  CASE o.op \in {"insert", "remove", "array_push", "array_insert", "array_replace", "array_remove", "array_fmt", "to_inline", "to_table"} -> Append(o.path, o.key)
+    [] o.op \in {"fmt", "clear"} -> o.path                                  \* the whole container
     [] o.op = "aot_push" -> Append(Append(o.path, o.key), IdxStep(0 - 2))     \* nothing that exists
     [] o.op = "aot_remove" -> Append(Append(o.path, o.key), IdxStep(o.i))
     [] o.op = "sort_values" -> <<<<0 - 9>>>>                                \* nothing: fragments survive, order within the table is free
